@@ -40,6 +40,10 @@ class Check(PropertyCheck):
             if i % 10 == 9:
                 yield self.env_scenario(rng)
                 continue
+            if i % 20 == 14:
+                # an episode a user observer aborts by raising; the caller resets at once (seeds divisible by 3 do)
+                yield Scenario(["new", f"mark raiser {3 * rng.randint(0, 10**5)}"], {"kind": "raiser", "before": 2, "after": 2, "observers": 3})
+                continue
             if i % 20 == 4:
                 # the multi-instance environment: every reset() starts an episode on a newly generated instance, as a freshly built
                 # single environment on that instance would (compared with the model; the generator may carry an iteration limit,
@@ -157,6 +161,11 @@ class Check(PropertyCheck):
     def oracle(self, impl, scenario, index, line, out, ctx):
         """Shadow world: fresh real objects that only ever see the events after the last reset."""
         res = []
+        if line.startswith("mark raiser"):
+            import oracles as _or
+            return _or.raiser_episode(int(line.split()[2]))["C12"]
+        if scenario.meta.get("kind") == "raiser":
+            return res
         if scenario.meta.get("kind") == "multi":
             if line == "mreset" and out == "raise" and not scenario.meta.get("may_refuse") and not scenario.meta.get("recirc") \
                     and not scenario.meta.get("multi_machine"):
